@@ -39,7 +39,23 @@ func ruleT6(c *Ctx) {
 	}
 	info := p.TypesInfo
 	n16, n32, nsc := 0, 0, 0
-	for _, sw := range switchesIn(fd.Body) {
+	// the calculator and the plain helpers of its package it calls (the SIB part may be a phase of its own)
+	t6Bodies := []*ast.BlockStmt{fd.Body}
+	ast.Inspect(fd.Body, func(n ast.Node) bool {
+		if call, ok := n.(*ast.CallExpr); ok {
+			if fn, ok := calleeOf(info, call).(*types.Func); ok && fn.Pkg() == p.Types {
+				if hd := funcDeclOf(p, fn); hd != nil && hd.Body != nil && hd.Recv == nil && hd != fd && strings.Contains(strings.ToLower(hd.Name.Name), "sib") {
+					t6Bodies = append(t6Bodies, hd.Body)
+				}
+			}
+		}
+		return true
+	})
+	var t6Switches []*ast.SwitchStmt
+	for _, body := range t6Bodies {
+		t6Switches = append(t6Switches, switchesIn(body)...)
+	}
+	for _, sw := range t6Switches {
 		if sw.Tag != nil {
 			// scale switch: tag is an int field
 			if sel, ok := ast.Unparen(sw.Tag).(*ast.SelectorExpr); ok && sel.Sel.Name == "Scale" {
@@ -312,9 +328,19 @@ func ruleT6(c *Ctx) {
 	f := c.L.SSAFunc("internal/codegen", "calculateModRM")
 	if f != nil {
 		c.check(orLayout(f, "modrm"), "T6", "calculateModRM|modrm = mod | reg | rm", c.L.Pos(f.Pos()), "ModR/M byte must be mod | regBits | rm")
-		c.check(sibLayout(f), "T6", "calculateModRM|sib = ss | index<<3 | base", c.L.Pos(f.Pos()), "SIB byte must be scale | index<<3 | base")
+		// the SIB byte may be put together by a helper of the calculator
+		sibOK, noneOK := false, false
+		for _, uf := range unitOf(f, 2) {
+			if sibLayout(uf) {
+				sibOK = true
+			}
+			if sibNoneDefaults(uf) {
+				noneOK = true
+			}
+		}
+		c.check(sibOK, "T6", "calculateModRM|sib = ss | index<<3 | base", c.L.Pos(f.Pos()), "SIB byte must be scale | index<<3 | base")
 		// defaults: index none = 100b, base none = 101b
-		idx4, base5 := false, false
+		idx4, base5 := noneOK, noneOK
 		ast.Inspect(fd.Body, func(n ast.Node) bool {
 			if gd, ok := n.(*ast.DeclStmt); ok {
 				if g, ok := gd.Decl.(*ast.GenDecl); ok {
@@ -458,6 +484,58 @@ func orLayout(f *ssa.Function, _ string) bool {
 			}
 			// inner = mod | regBits(param), outer | rm
 			if _, isParam := inner.Y.(*ssa.Parameter); isParam {
+				return true
+			}
+		}
+	}
+	return false
+}
+
+// sibNoneDefaults: in the SIB byte ss | index<<3 | base the index value can be the constant 4
+// (no index) and the base value the constant 5 (no base): both are joins with those constants.
+func sibNoneDefaults(f *ssa.Function) bool {
+	hasConst := func(v ssa.Value, want int64) bool {
+		seen := map[ssa.Value]bool{}
+		var walk func(v ssa.Value, d int) bool
+		walk = func(v ssa.Value, d int) bool {
+			if d > 6 || seen[v] {
+				return false
+			}
+			seen[v] = true
+			switch x := v.(type) {
+			case *ssa.Const:
+				return isIntConst(x) && x.Int64() == want
+			case *ssa.Convert:
+				return walk(x.X, d+1)
+			case *ssa.Phi:
+				for _, e := range x.Edges {
+					if walk(e, d+1) {
+						return true
+					}
+				}
+			}
+			return false
+		}
+		return walk(v, 0)
+	}
+	for _, b := range f.Blocks {
+		for _, in := range b.Instrs {
+			bo, ok := in.(*ssa.BinOp)
+			if !ok || bo.Op != token.OR {
+				continue
+			}
+			inner, ok := bo.X.(*ssa.BinOp)
+			if !ok || inner.Op != token.OR {
+				continue
+			}
+			sh, ok := inner.Y.(*ssa.BinOp)
+			if !ok || sh.Op != token.SHL {
+				continue
+			}
+			if k, ok := sh.Y.(*ssa.Const); !ok || k.Int64() != 3 {
+				continue
+			}
+			if hasConst(sh.X, 4) && hasConst(bo.Y, 5) {
 				return true
 			}
 		}
